@@ -319,8 +319,14 @@ func (b *BloomSearchEngine) Stop(ctx context.Context) error {
 
 	select {
 	case <-done:
-		// Workers finished gracefully
-		stopAfter()
+		// Workers finished. When the deadline abort has already fired, they may
+		// have finished only because flush work was cut short (store calls and
+		// done-channel deliveries return early once flushCtx is canceled), so
+		// an accepted batch may have gone unanswered: that is the timeout
+		// outcome, not a graceful stop, even if this case won the select.
+		if !stopAfter() {
+			return fmt.Errorf("shutdown timeout exceeded: %w", ctx.Err())
+		}
 		return nil
 	case <-ctx.Done():
 		// Timeout occurred. Cancel flush work before returning: the AfterFunc
